@@ -12,3 +12,11 @@ open RV.C06
 #print axioms patch_rows_roundtrip
 #print axioms jsonld_merge_breaks_roundtrip
 #print axioms trix_anonymous_breaks_roundtrip
+#print axioms patch_opcode_recognised
+#print axioms patch_line_roundtrip
+#print axioms patch_reader_is_fold
+#print axioms patch_text_roundtrip
+#print axioms patch_text_apply
+#print axioms patch_operation_doc
+#print axioms trig_loop_refines
+#print axioms each_triple_one_block_trig_loop
